@@ -4,8 +4,11 @@
    BlocksB.v (block state machine and branch selection), LegacyEq.v (Flavor= groups).
 
    Models (Model/Cond.v, Args.v, Legacy.v, Blocks.v) follow python/eups/VersionParser.py and
-   python/eups/table.py; the flag [true] selects the code with the three small repairs
-   (fix: commits f4206d2, 9ec7318, 6f99cf4), [false] the pinned code.
+   python/eups/table.py; the first flag [true] selects the code with the three small repairs
+   (fix: commits f4206d2, 9ec7318, 6f99cf4), [false] the pinned code; the second flag of
+   read_text / table_actions [true] selects the block reader with the repair of D6
+   (proposed_fixes/C11-empty-branch: a branch is closed by the brace line that follows it,
+   whether or not it holds a command), [false] the reader before that repair.
    Specification (Model/TableSpec.v): items = commands and if / else if / else chains, every
    node carrying its layout (indentation, blank and comment lines, trailing comments, letter
    case of command names and of FLAVOR / TYPE, quoting of values and literals, separators,
@@ -143,14 +146,15 @@ Print Assumptions required_optional_distinct.
 (* ------------------------------------------------------------------ blocks *)
 
 (* reading the text of an items list and asking for the actions of a flavor / type gives
-   the denotation of the items.  no_empty_branch is the negation of the signature of the
-   open finding D6. *)
+   the denotation of the items, whether or not every branch holds a command (the reader
+   with the repair of D6; the reader before it needs no_empty_branch, see
+   blocks_refuted_empty_branch_pinned and repair_conservative_items below). *)
 Theorem blocks_sound top e is :
-  wf_env e = true -> wf_items is = true -> no_empty_branch is = true ->
-  table_actions true top (print_table is) e = Ok (denote_items e top is).
+  wf_env e = true -> wf_items is = true ->
+  table_actions true true top (print_table is) e = Ok (denote_items e top is).
 Proof.
-  intros He Hw Hn. unfold table_actions. rewrite (read_text_print top is Hw).
-  rewrite (read_blocks_items top (fun c Hc => split_print_args _ _ (proj1 (proj2 (wf_cmd_parts c Hc)))) is Hw Hn).
+  intros He Hw. unfold table_actions. rewrite (read_text_print true top is Hw). unfold read_blocks_sel.
+  rewrite (read_blocks_r_items top (fun c Hc => split_print_args _ _ (proj1 (proj2 (wf_cmd_parts c Hc)))) is Hw).
   cbn [bind]. rewrite (select_compile top e (fun c Hc => proj2 (cond_sound e c He Hc)) is [] Hw). reflexivity.
 Qed.
 Print Assumptions blocks_sound.
@@ -159,15 +163,15 @@ Print Assumptions blocks_sound.
    branch (nothing when there is none) *)
 Theorem exactly_one_branch top e b0 elifs els cl :
   let ch := IChain b0 elifs els cl in
-  wf_env e = true -> wf_items [ch] = true -> no_empty_branch [ch] = true ->
-  exists acts, table_actions true top (print_table [ch]) e = Ok acts /\
+  wf_env e = true -> wf_items [ch] = true ->
+  exists acts, table_actions true true top (print_table [ch]) e = Ok acts /\
     ((exists pre b post, b0 :: elifs = pre ++ b :: post /\
         forallb (fun b' => negb (denote e (b_cond b'))) pre = true /\ denote e (b_cond b) = true /\
         acts = denote_body top (b_body b))
      \/ (forallb (fun b' => negb (denote e (b_cond b'))) (b0 :: elifs) = true /\
          acts = match els with Some (b, _) => denote_body top b | None => [] end)).
 Proof.
-  intros ch He Hw Hn. eexists. split; [apply (blocks_sound top e [ch] He Hw Hn)|].
+  intros ch He Hw. eexists. split; [apply (blocks_sound top e [ch] He Hw)|].
   unfold denote_items. cbn [flat_map ch denote_item]. rewrite app_nil_r.
   generalize (b0 :: elifs). intros bs. induction bs as [|b bs IH].
   - right. split; reflexivity.
@@ -183,21 +187,20 @@ Print Assumptions exactly_one_branch.
 (* commands keep their order: the actions of a file are those of its first part followed by
    those of the rest *)
 Theorem order_preserved top e is1 is2 :
-  wf_env e = true -> wf_items (is1 ++ is2) = true -> no_empty_branch (is1 ++ is2) = true ->
+  wf_env e = true -> wf_items (is1 ++ is2) = true ->
   exists a1 a2,
-    table_actions true top (print_table is1) e = Ok a1 /\
-    table_actions true top (print_table is2) e = Ok a2 /\
-    table_actions true top (print_table (is1 ++ is2)) e = Ok (a1 ++ a2).
+    table_actions true true top (print_table is1) e = Ok a1 /\
+    table_actions true true top (print_table is2) e = Ok a2 /\
+    table_actions true true top (print_table (is1 ++ is2)) e = Ok (a1 ++ a2).
 Proof.
-  intros He Hw Hn. unfold wf_items, no_empty_branch in *. rewrite forallb_app in Hw, Hn.
-  apply andb_true_iff in Hw. apply andb_true_iff in Hn. destruct Hw as [W1 W2]. destruct Hn as [N1 N2].
+  intros He Hw. unfold wf_items in *. rewrite forallb_app in Hw.
+  apply andb_true_iff in Hw. destruct Hw as [W1 W2].
   exists (denote_items e top is1), (denote_items e top is2). repeat split.
   - now apply blocks_sound.
   - now apply blocks_sound.
   - rewrite blocks_sound; auto.
     + unfold denote_items. now rewrite flat_map_app.
     + unfold wf_items. now rewrite forallb_app, W1, W2.
-    + unfold no_empty_branch. now rewrite forallb_app, N1, N2.
 Qed.
 Print Assumptions order_preserved.
 
@@ -219,25 +222,80 @@ Definition ex_items : list item :=
 
 Example blocks_sound_inhabited :
   wf_items ex_items = true /\ no_empty_branch ex_items = true /\
-  table_actions true (lit "foo") (print_table ex_items) ex_env
+  table_actions true true (lit "foo") (print_table ex_items) ex_env
   = Ok [ mkAction (lit "setupRequired") [lit "bar"; lit "1.0"] [(lit "optional", true)];
          mkAction (lit "envPrepend") [lit "PATH"; lit "/opt/p q/bin"; lit ":"] [(lit "append", true)] ].
 Proof. vm_compute. repeat split. Qed.
 
-(* D6 (open finding): a branch without any command.  if (A) {} else {X} runs X exactly
-   when A holds; the text denotes nothing for such a flavor. *)
+(* ... and one with empty branches: if (type == exact) {} else if (FLAVOR == Linux64) {X}
+   else {} followed by if (FLAVOR == Linux64) {Y}, what expandTableFile writes when nothing
+   was set up below the product being the first two lines of it *)
+Definition ex_set (v x : string) : cmd :=
+  ex_cmd KEnvSet "envSet" [lit v; lit x] (mkArglay 0 [(lit ", ", false)] 0).
+Arguments ex_set v%string x%string.
+Definition ex_empty_items : list item :=
+  [ IChain (mkBranch (ex_atom "type" CType OEq "exact" QNone) [] ex_blay)
+           [mkBranch (ex_atom "FLAVOR" CFlavor OEq "Linux64" QNone) [ex_set "A" "x"] ex_blay]
+           (Some ([], ex_blay)) ex_blay;
+    IChain (mkBranch (ex_atom "FLAVOR" CFlavor OEq "Linux64" QNone) [ex_set "B" "y"] ex_blay) [] None ex_blay ].
+
+Example blocks_sound_inhabited_empty_branches :
+  wf_items ex_empty_items = true /\ no_empty_branch ex_empty_items = false /\
+  table_actions true true (lit "foo") (print_table ex_empty_items) ex_env
+  = Ok [ mkAction (lit "envSet") [lit "A"; lit "x"] []; mkAction (lit "envSet") [lit "B"; lit "y"] [] ] /\
+  table_actions true true (lit "foo") (print_table ex_empty_items) (mkCenv (lit "Linux64") [lit "exact"])
+  = Ok [ mkAction (lit "envSet") [lit "B"; lit "y"] [] ].
+Proof. vm_compute. repeat split. Qed.
+
+(* D6, the reader before the repair: a branch without any command.  if (A) {} else {X} runs
+   X exactly when A holds; the text denotes nothing for such a flavor, and that is what the
+   repaired reader answers. *)
 Definition d6_items : list item :=
   [ IChain (mkBranch (ex_atom "FLAVOR" CFlavor OEq "Linux64" QNone) [] ex_blay) []
            (Some ([ex_cmd KEnvSet "envSet" [lit "A"; lit "c"] (mkArglay 0 [(lit ", ", false)] 0)], ex_blay))
            ex_blay ].
 
-Theorem blocks_refuted_empty_branch :
+Theorem blocks_refuted_empty_branch_pinned :
   wf_env ex_env = true /\ wf_items d6_items = true /\ no_empty_branch d6_items = false /\
   denote_items ex_env (lit "foo") d6_items = [] /\
-  table_actions true (lit "foo") (print_table d6_items) ex_env
-  = Ok [mkAction (lit "envSet") [lit "A"; lit "c"] []].
+  table_actions true false (lit "foo") (print_table d6_items) ex_env
+  = Ok [mkAction (lit "envSet") [lit "A"; lit "c"] []] /\
+  table_actions true true (lit "foo") (print_table d6_items) ex_env = Ok [].
 Proof. vm_compute. repeat split. Qed.
-Print Assumptions blocks_refuted_empty_branch.
+Print Assumptions blocks_refuted_empty_branch_pinned.
+
+(* the repair changes nothing else.  On any text (malformed ones, stray braces and legacy
+   lines included): if, as the repaired reader runs over the classified lines, no brace line
+   finds it inside a branch with an empty block, it builds exactly the blocks the reader
+   before the repair builds ... *)
+Theorem repair_conservative fx top text ls :
+  rewrite (split_lines text) = Ok ls ->
+  no_empty_open fx top (map (classify fx) ls) q_init = true ->
+  read_text fx true top text = read_text fx false top text /\
+  forall e, table_actions fx true top text e = table_actions fx false top text e.
+Proof.
+  intros Hr Hn.
+  assert (E : read_text fx true top text = read_text fx false top text).
+  { unfold read_text. rewrite Hr. cbn [bind]. unfold read_blocks_sel. now apply repair_conservative_lines. }
+  split; [exact E|]. intros e. unfold table_actions. now rewrite E.
+Qed.
+Print Assumptions repair_conservative.
+
+(* ... in particular on the text of items every branch of which holds a command, where the
+   reader before the repair was already right *)
+Theorem repair_conservative_items top e is :
+  wf_env e = true -> wf_items is = true -> no_empty_branch is = true ->
+  table_actions true false top (print_table is) e = Ok (denote_items e top is) /\
+  table_actions true false top (print_table is) e = table_actions true true top (print_table is) e.
+Proof.
+  intros He Hw Hn.
+  assert (A : table_actions true false top (print_table is) e = Ok (denote_items e top is)).
+  { unfold table_actions. rewrite (read_text_print false top is Hw). unfold read_blocks_sel.
+    rewrite (read_blocks_items top (fun c Hc => split_print_args _ _ (proj1 (proj2 (wf_cmd_parts c Hc)))) is Hw Hn).
+    cbn [bind]. rewrite (select_compile top e (fun c Hc => proj2 (cond_sound e c He Hc)) is [] Hw). reflexivity. }
+  split; [exact A|]. now rewrite A, blocks_sound.
+Qed.
+Print Assumptions repair_conservative_items.
 
 (* the pinned brace pattern drops an else line that is followed by blanks or a comment *)
 Definition else_trailing_items : list item :=
@@ -248,9 +306,9 @@ Definition else_trailing_items : list item :=
 
 Theorem blocks_refuted_pinned_else_trailing :
   wf_items else_trailing_items = true /\ no_empty_branch else_trailing_items = true /\
-  table_actions false (lit "foo") (print_table else_trailing_items) ex_env
+  table_actions false false (lit "foo") (print_table else_trailing_items) ex_env
   = Ok [mkAction (lit "envSet") [lit "A"; lit "b"] []; mkAction (lit "envSet") [lit "A"; lit "c"] []] /\
-  table_actions true (lit "foo") (print_table else_trailing_items) ex_env
+  table_actions true true (lit "foo") (print_table else_trailing_items) ex_env
   = Ok [mkAction (lit "envSet") [lit "A"; lit "b"] []].
 Proof. vm_compute. repeat split. Qed.
 Print Assumptions blocks_refuted_pinned_else_trailing.
@@ -264,11 +322,11 @@ Print Assumptions blocks_refuted_pinned_else_trailing.
 Theorem legacy_equiv top e fs body :
   wf_env e = true -> wf_flavors fs = true -> forallb wf_cmd body = true -> is_nil body = false ->
   let chain := [IChain (mkBranch (flavor_disj fs) body plain_blay) [] None plain_blay] in
-  read_text true top (print_new_group fs body) = read_text true top (print_table chain) /\
-  read_text true top (print_old_group fs body) = read_text true top (print_table chain) /\
-  table_actions true top (print_new_group fs body) e
+  read_text true true top (print_new_group fs body) = read_text true true top (print_table chain) /\
+  read_text true true top (print_old_group fs body) = read_text true true top (print_table chain) /\
+  table_actions true true top (print_new_group fs body) e
   = Ok (if mem_str (ce_flavor e) fs then denote_body top body else []) /\
-  table_actions true top (print_old_group fs body) e
+  table_actions true true top (print_old_group fs body) e
   = Ok (if mem_str (ce_flavor e) fs then denote_body top body else []).
 Proof. apply legacy_groups. Qed.
 Print Assumptions legacy_equiv.
@@ -277,7 +335,7 @@ Example legacy_equiv_inhabited :
   let fs := [lit "Linux64"; lit "DarwinX86"] in
   let body := [ex_cmd KSetenv "setenv" [lit "A"; lit "b c"] (mkArglay 0 [(lit ", ", true)] 0)] in
   wf_flavors fs = true /\ forallb wf_cmd body = true /\
-  table_actions true (lit "foo") (print_new_group fs body) ex_env = Ok [mkAction (lit "envSet") [lit "A"; lit "b c"] []] /\
-  table_actions true (lit "foo") (print_old_group fs body) ex_env = Ok [mkAction (lit "envSet") [lit "A"; lit "b c"] []] /\
-  table_actions true (lit "foo") (print_new_group fs body) (mkCenv (lit "SunOS") []) = Ok [].
+  table_actions true true (lit "foo") (print_new_group fs body) ex_env = Ok [mkAction (lit "envSet") [lit "A"; lit "b c"] []] /\
+  table_actions true true (lit "foo") (print_old_group fs body) ex_env = Ok [mkAction (lit "envSet") [lit "A"; lit "b c"] []] /\
+  table_actions true true (lit "foo") (print_new_group fs body) (mkCenv (lit "SunOS") []) = Ok [].
 Proof. vm_compute. repeat split. Qed.
